@@ -301,7 +301,7 @@ class PoolAdapter:
         th = self.pool._timeout_handler
         sc['co'] = Co(th.handle_event, name='scan')
         self.scan = sc
-        sc['co'].start()
+        sc['co'].start(timeout=2)       # a scan that takes no snapshot never reaches the shim
         if sc['co'].crash is not None:
             raise sc['co'].crash
         if sc['co'].finished:
